@@ -107,7 +107,7 @@ def ob_abandon(pulls: int, pos0: int, pk: int) -> bool:
     ordered = H.P("return_as") == "generator"
     with H.native():
         n = 6
-        calls = [dict(n_tasks=n, pulls=pl, end=["close", "drop"][en], overlap=ov), dict(n_tasks=3)]
+        calls = [dict(n_tasks=n, pulls=pl, end=["close", "drop", "exhaust"][en], overlap=ov), dict(n_tasks=3)]
         pre = [(p0, 0)] if p0 >= 0 else []
         o = parlib.run(_cfg(H.PARAMS, calls), dict(preempt=pre, picks=[pkv]))
         probs = _common(o)
@@ -117,13 +117,16 @@ def ob_abandon(pulls: int, pos0: int, pk: int) -> bool:
                 probs.append("first call raised %r" % (r0["exc"],))
             else:
                 got = r0["result"]
-                want = [(0, i) for i in range(min(pl, n))]
+                pulled_before_overlap = pl
+                want = [(0, i) for i in range(min(pl, n) if en < 2 else n)]
+                if en == 2:
+                    pl = n
                 if ordered and got != want:
                     probs.append("pulled %r, expected %r" % (got, want))
                 if not ordered and (len(got) != min(pl, n) or len(set(got)) != len(got) or
                                     any(g not in [(0, i) for i in range(n)] for g in got)):
                     probs.append("pulled %r: not %d distinct results of this call" % (got, min(pl, n)))
-                if ov and pl < n and r0.get("overlap") != "RuntimeError":
+                if ov and pulled_before_overlap < n and r0.get("overlap") != "RuntimeError":
                     probs.append("a call during the unfinished run gave %r instead of RuntimeError" % (r0.get("overlap"),))
                 if r0.get("submitted_after_end") is not None:
                     first_of_next = [s for s, m in sorted(o.sim.submit_meta.items()) if m is not None and m >= 1]
@@ -140,7 +143,7 @@ def ob_abandon(pulls: int, pos0: int, pk: int) -> bool:
         else:
             probs.append("only %d of 2 calls finished" % len(o.calls))
         for m in probs:
-            H.note("pulls=%d end=%s overlap=%r preempt=%r: %s" % (pl, ["close", "drop"][en], ov, pre, m))
+            H.note("pulls=%d end=%s overlap=%r preempt=%r: %s" % (pl, ["close", "drop", "exhaust"][en], ov, pre, m))
         return H.verdict(not probs)
 
 
@@ -196,13 +199,13 @@ def obligations(tier, seed):
                         "params": {"backend": be, "return_as": ra}, "timeout": 600,
                         "bounds": "5 tasks, batch 0..4 never completes, one pre-emption anywhere, 2x2 picks"})
             for uw in ((False,) if tier == "quick" else (False, True)):
-                for en in (0, 1):
-                    obs.append({"name": "abandon/%s/%s/with=%s/%s" % (be, ra, uw, ["close", "drop"][en]), "fn": "ob_abandon",
+                for en in (0, 1, 2):
+                    obs.append({"name": "abandon/%s/%s/with=%s/%s" % (be, ra, uw, ["close", "drop", "resume"][en]), "fn": "ob_abandon",
                                 "mode": "S", "params": {"backend": be, "return_as": ra, "use_with": uw, "end": en,
                                                         "pull_counts": [0, 1, 3, 6] if tier == "quick" else [0, 2, 4, 5]},
                                 "timeout": 900,
                                 "bounds": "6 tasks, pulls in %s, then %s; overlapping call attempted; one pre-emption anywhere, "
-                                          "2 picks; then a 3-task call" % ([0, 1, 3, 6], ["close()", "drop"][en])})
+                                          "2 picks; then a 3-task call" % ([0, 1, 3, 6], ["close()", "drop", "keep consuming to the end"][en])})
         obs.append({"name": "unordered/%s" % be, "fn": "ob_unordered", "mode": "S",
                     "params": {"backend": be, "return_as": "generator_unordered", "pre_dispatch": 3}, "timeout": 600,
                     "bounds": "1/3/5 tasks, one pre-emption anywhere, 2x2 picks"})
